@@ -1677,6 +1677,48 @@ def scan_entry_points(world, impls):
     return entries, sorted(set(tguards))
 
 
+
+def scan_setters(world, impls):
+    """public by-value-self methods of the builder types that return the builder: {builder: [names]} (source order)"""
+    builders = set(im.target for im in impls)
+    res = {}
+    for root in crate_roots(world.repo):
+        for path in sorted(module_files(root)):
+            src = norm_macros(strip_comments(open(path, encoding='utf8', errors='replace').read()))
+            for header, block in impl_blocks(src):
+                try:
+                    tr, targs, recv, gnames = split_header(header)
+                except TranslationError:
+                    continue
+                rb = type_base(recv)
+                if tr is not None or rb not in builders:
+                    continue
+                inner = block[1:-1]
+                for f in re.finditer(r'\b(pub\s+)?fn\s+(\w+)\s*', inner):
+                    pre = inner[:f.start()]
+                    if pre.count('{') != pre.count('}') or not f.group(1):
+                        continue
+                    j = f.end()
+                    if j < len(inner) and inner[j] == '<':
+                        j = skip_generics(inner, j)
+                    if not re.match(r'\s*\(', inner[j:]):
+                        continue
+                    a = inner.index('(', j)
+                    b = match_close(inner, a)
+                    params = split_top(inner[a + 1:b])
+                    if not params or not re.fullmatch(r'(mut)?self', squeeze(params[0])):
+                        continue
+                    k = b + 1
+                    while k < len(inner) and inner[k] not in '{;':
+                        k += 1
+                    ret = squeeze(re.split(r'\bwhere\b', inner[b + 1:k])[0])
+                    if re.fullmatch(r'->(Self|' + re.escape(rb) + r'(<.*>)?)', ret):
+                        res.setdefault(rb, [])
+                        if f.group(2) not in res[rb]:
+                            res[rb].append(f.group(2))
+    return res
+
+
 def coq_shape(sh):
     if sh[0] == 'EpGetter':
         return 'EpGetter'
@@ -1696,6 +1738,14 @@ def emit_entry_points(world, impls, w):
             coq_str(e['file']), coq_str(e['trait']), coq_str(e['recv']), e['cls'], coq_str(e['builder']), coq_str(e['records']),
             '; '.join('(%s, %s)' % (coq_str(n), coq_shape(sh)) for n, sh in e['fns'])))
     w('  [' + ';\n'.join(lines).lstrip() + '].')
+    w('')
+    setters = scan_setters(world, impls)
+    w('(* the public setters of every builder (methods taking `self` by value and returning the builder); one builder')
+    w('   per line: harness/src/bin/c04.rs reads this block to see that its setter chains use every one of them *)')
+    w('Definition builder_setters : list (string * list string) :=')
+    w('  [' + ';\n   '.join('(%s, [%s])' % (coq_str(b), '; '.join(coq_str(n) for n in setters.get(b, [])))
+                           for b in sorted(set(im.target for im in impls))) + '].')
+    w('(* END builder_setters *)')
     w('')
     w('(* `impl TransformGuard for X`: the blanket Transformer impl of src/param_guard.rs applies to X *)')
     w('Definition transform_guard_impls : list string := [%s].' % '; '.join(coq_str(t) for t in tguards))
